@@ -16,7 +16,7 @@ ID = 'C12'
 CASES = {'quick': 500, 'thorough': 30000}
 RULE = ('(flags) Hypothesis draws 2..7 leaves at depth 1..3 with per-leaf _emit '
         'flags, kinds int / quantity (update in a compatible other unit) / '
-        'custom _serializer, a store_schema override tree with _emit on '
+        'custom _serializer, lists of quantities in mixed compatible units, a store_schema override tree with _emit on '
         'branches and leaves, 1..2 incrementing processes with different '
         'timesteps, 0..1 step, 1..4 run_for/update calls and emit_step in '
         '{1,2,3,2.5}; (struct) structural histories as in C09 whose '
@@ -52,13 +52,17 @@ def strategy_(draw, tier):
     bases = [[], ['a'], ['a', 'b'], ['c'], ['c', 'd']]
     leaves = []
     for i in range(n):
-        kind = draw(st.sampled_from(['int', 'int', 'int', 'q', 'ser']))
+        kind = draw(st.sampled_from(['int', 'int', 'int', 'q', 'ser',
+                                     'qlist']))
         leaf = {'path': draw(st.sampled_from(bases)) + ['v%d' % i],
                 'emit': draw(st.booleans()), 'kind': kind}
         if kind == 'q':
             leaf['unit'], leaf['upd_unit'] = draw(st.sampled_from(UNIT_PAIRS))
             # initial state given in the *other* compatible unit
             leaf['init'] = draw(st.sampled_from([None, 3, 2500]))
+        if kind == 'qlist':
+            leaf['unit'], leaf['upd_unit'] = draw(st.sampled_from(UNIT_PAIRS))
+            leaf['write'] = draw(st.booleans())
         leaves.append(leaf)
     overrides = []
     for _ in range(draw(st.integers(0, 3))):
@@ -124,6 +128,10 @@ def expected_cell(leaf, value):
     if leaf['kind'] == 'q':
         from vivarium.library.units import units
         return '!units[%s]' % str(value.to(units(leaf['unit']).units))
+    if leaf['kind'] == 'qlist':
+        from vivarium.library.units import units
+        return ['!units[%s]' % str(v.to(units(leaf['unit']).units))
+                for v in value]
     if leaf['kind'] == 'ser':
         return '!tag[%r]' % (value,)
     return value
